@@ -119,6 +119,9 @@ def run(c, chk):
     sub = P(chk, {'R17.6': 'R13.4'})
     c17.resolution_idiom(c, sub, ex)
 
+    # R13.8
+    section_path(c, chk)
+
     # R13.5
     term = False
     ffe = c.lexer.funcs.get('yy_fatal_error')
@@ -158,3 +161,30 @@ def run(c, chk):
     chk.floor('R13.7 start conditions with a popping EOF action', npop, 1)
 
 
+
+
+def section_path(c, chk):
+    """an include written inside a section resolves its name like one at top level: whenever the parser enters a
+    section body the section carries the search path of the context being parsed"""
+    chk.rule('R13.8', 'on entry to a section body the section is given the search path of the enclosing context (sections created before a path was added included)')
+    model = pm.ParserModel(c)
+    LB = pm.TOKENS['{']
+    n = 0
+    for s in model.states:
+        for tr in model.transitions(s, LB):
+            rec = tr.calls('cfg_parse_internal')
+            if not rec or tr.kind != 'next':
+                continue
+            n += 1
+            ri = tr.events.index(rec[0])
+            sec = rec[0].args[0]
+            ok = any(e.kind == 'store' and e.addr[0] == 'fld' and e.addr[3] == 'path' and sym.norm(e.addr[1]) == sym.norm(sec)
+                     and sym.norm(e.val) == ('ld', ('fld', ('p', 'cfg'), 'cfg_t', 'path')) for e in tr.events[:ri])
+            if not ok:
+                chk.fail('R13.8', 'section-path', c.where(rec[0].ins),
+                         'the parser enters a section body without giving the section the current search path: include() inside a section that existed before '
+                         'cfg_add_searchpath() was called (every section created by cfg_init()) looks the file up without the search path')
+                return
+    if n:
+        chk.ok('R13.8', 'section entry: %d transitions' % n, 'section->path = cfg->path before the recursive parse', sample=True)
+    chk.floor('R13.8 section-entry transitions', n, 1)
